@@ -20,8 +20,11 @@ THEOREMS = [
     "RedunModel.C25.rollback_invalidates_descendants",
     "RedunModel.C25.rederive_revalidates",
     "RedunModel.C25.unrecorded_invalid",
+    "RedunModel.C25.current_matches_spec_partial",
     "RedunModel.C25.current_refuted_raw",
     "RedunModel.C25.current_refuted_fork_edge",
+    "RedunModel.C25.sched_preserves_closed",
+    "RedunModel.C25.chain_no_stale_replay",
 ]
 TRUSTED = [
     "modelled, not verified: HandleInfo.get_hash is a perfect hash (a handle state is its hash; the harness renames digests to "
